@@ -30,10 +30,13 @@ def known_fact(m, label):
 
 def site_forms(m, label):
     """accepted ways to obtain the Site* stored under `label`."""
-    return [("op", "[]", m, label),
+    base = [("op", "[]", m, label),
             ("mcall", "std::map::at", m, label),
             ("field", "std::pair::second", ("op", "->", find_key(m, label))),
-            ("field", "std::pair::second", ("un", "*", find_key(m, label)))]
+            ("field", "std::pair::second", ("un", "*", find_key(m, label))),
+            ("field", "std::pair::second", ("op", "*", find_key(m, label)))]
+    # the stored value is a Site*: member access through the pointer or through an explicit dereference
+    return base + [("un", "*", x) for x in base] + [("op", "*", x) for x in base]
 
 
 def body(chk, db, cfgname):
